@@ -9,3 +9,10 @@ s = open(p).read()
 a = s.index("<!-- BEGIN:seedtable -->") + len("<!-- BEGIN:seedtable -->")
 b = s.index("<!-- END:seedtable -->")
 open(p, "w").write(s[:a] + "\n" + t + s[b:])
+
+t2 = subprocess.run(["python3", os.path.join(V, "tools/refactortable.py")], stdout=subprocess.PIPE, text=True).stdout
+s = open(p).read()
+if "<!-- BEGIN:refactortable -->" in s:
+    a = s.index("<!-- BEGIN:refactortable -->") + len("<!-- BEGIN:refactortable -->")
+    b = s.index("<!-- END:refactortable -->")
+    open(p, "w").write(s[:a] + "\n" + t2 + s[b:])
